@@ -74,6 +74,9 @@ Lemma space_groups_single bot top p : space_groups bot top [p] = [[p]].
 Proof. reflexivity. Qed.
 
 (* ------------------------------------------------------------------ alone in its time slot: group of one *)
+Lemma flat_map_map {A B C} (f : B -> list C) (g : A -> B) l : flat_map f (map g l) = flat_map (fun x => f (g x)) l.
+Proof. induction l as [|x t IH]; simpl; [reflexivity | now rewrite IH]. Qed.
+
 Lemma filter_singleton {A} (f : A -> bool) l p : NoDup l -> In p l -> f p = true ->
   (forall q, In q l -> f q = true -> q = p) -> filter f l = [p].
 Proof.
@@ -105,13 +108,16 @@ Theorem alone_in_slot idx L p e : nth_error L p = Some e -> is_two_qubit (l_cls 
   (forall p' e', nth_error L p' = Some e' -> is_two_qubit (l_cls (e_leaf e')) = true -> e_start e' = e_start e -> p' = p) ->
   slot_of (two_qubit_slots idx L) p = (0, 1).
 Proof.
-  intros He Ht Hu. unfold two_qubit_slots, time_groups. rewrite flat_map_concat_map, map_map, <- flat_map_concat_map.
+  intros He Ht Hu. unfold two_qubit_slots, time_groups. cbv zeta. rewrite flat_map_map.
   set (at_ := fun q => nth q L dummy_entry).
   set (ps := filter (fun q => is_two_qubit (l_cls (e_leaf (at_ q)))) (seq 0 (List.length L))).
   assert (Hat : at_ p = e) by (unfold at_; apply nth_error_nth; exact He).
   assert (Hp : In p ps).
   { unfold ps. apply filter_In. split; [apply in_seq; split; [lia|]; simpl; apply nth_error_Some; congruence | now rewrite Hat]. }
-  apply (slots_of_keys _ (fun q => e_start (at_ q)) ps p).
+  match goal with
+  | |- slot_of (flat_map (fun s => group_slots (space_groups ?b ?t _)) ?ks) p = _ =>
+      apply (slots_of_keys (fun tg => group_slots (space_groups b t tg)) (fun q => e_start (at_ q)) ps p)
+  end.
   - unfold ps. apply nodup_filter. apply seq_NoDup.
   - exact Hp.
   - intros q Hq E. unfold ps in Hq. apply filter_In in Hq. destruct Hq as [Hq Hc]. apply in_seq in Hq.
@@ -173,7 +179,7 @@ Theorem listed_channel_occupied env ns e ch : In e (listing env ns) -> In ch (l_
   In (ChannelIdentifier__id ch) (channel_ids ns).
 Proof.
   intros He Hch. unfold channel_ids. rewrite (unique_in_order_is_nub Z.eqb Zeqb_spec'). apply (nub_In Z.eqb Zeqb_spec').
-  apply in_map. eapply listing_channels; eassumption.
+  apply in_map. exact (listing_channels env (OComp 1 ns) None (0, 0) e ch He Hch).
 Qed.
 
 Lemma reorder_keeps_channels original specific r q : reorder_indices original specific = Some r -> In q original -> In q r.
@@ -202,24 +208,22 @@ Qed.
 Theorem drawn_qubit_is_channel l q : l_chans l <> [] -> In q (drawn_qubits l) -> In q (map ChannelIdentifier__id (l_chans l)).
 Proof.
   intros Hne Hq. pose proof class_table_covers as T. rewrite forallb_forall in T. specialize (T _ (class_of_in (l_cls l))).
-  unfold tpl_covers in T. unfold drawn_qubits, is_two_qubit, draws_all_qubits, cls_name in Hq. unfold l_chans in *.
-  destruct (smem "control_qubit_index" (cs_init_fields (class_of (l_cls l)))).
-  - destruct (cs_chan (class_of (l_cls l))) as [items|]; [|discriminate]. apply andb_true_iff in T. destruct T as [T0 T1].
-    rewrite map_map. simpl. destruct Hq as [<-|[<-|[]]].
+  unfold tpl_covers in T. unfold drawn_qubits, is_two_qubit, draws_all_qubits, cls_name, first_channel in Hq. unfold l_chans in *.
+  set (cs := class_of (l_cls l)) in *.
+  destruct (smem "control_qubit_index" (cs_init_fields cs)).
+  - destruct (cs_chan cs) as [items|]; [|discriminate]. apply andb_true_iff in T. destruct T as [T0 T1].
+    rewrite map_map. simpl. simpl in Hq. destruct Hq as [Hq|[Hq|Hq]]; [| |destruct Hq]; subst q.
     + apply existsb_exists in T0. destruct T0 as [it [Hit E]]. apply Nat.eqb_eq in E. apply in_map_iff. exists it. rewrite E. split; [reflexivity | exact Hit].
     + apply existsb_exists in T1. destruct T1 as [it [Hit E]]. apply Nat.eqb_eq in E. apply in_map_iff. exists it. rewrite E. split; [reflexivity | exact Hit].
-  - destruct (String.eqb (cs_name (class_of (l_cls l))) "Barrier") eqn:EB.
-    + destruct (cs_chan (class_of (l_cls l))) as [|c0]; [discriminate|]. simpl in Hq.
-      destruct (smem "Barrier" draw_individual_classes).
-      * rewrite map_map. simpl. rewrite map_id. exact Hq.
-      * destruct Hq as [<-|[]]. unfold first_channel, l_chans. rewrite map_map. simpl. rewrite map_id.
-        destruct (cs_chan (class_of (l_cls l))) eqn:EC; simpl.
-        -- destruct (l_qubits l); [exfalso; apply Hne; reflexivity | left; reflexivity].
-        -- destruct (l_qubits l); [exfalso; apply Hne; reflexivity | left; reflexivity].
-    + simpl in Hq. destruct Hq as [<-|[]]. unfold first_channel, l_chans.
-      destruct (cs_chan (class_of (l_cls l))) as [items|c0]; simpl in *.
-      * destruct items; [exfalso; apply Hne; reflexivity | left; reflexivity].
-      * destruct (l_qubits l); [exfalso; apply Hne; reflexivity | left; reflexivity].
+  - destruct (String.eqb (cs_name cs) "Barrier") eqn:EB; cbn [andb] in Hq.
+    + destruct (cs_chan cs) as [items|c0]; [discriminate|]. rewrite map_map. simpl. rewrite map_id.
+      destruct (smem "Barrier" draw_individual_classes); [exact Hq|].
+      destruct Hq as [Hq|Hq]; [|destruct Hq]. subst q.
+      destruct (l_qubits l) as [|q0 t]; [exfalso; apply Hne; reflexivity | left; reflexivity].
+    + destruct Hq as [Hq|Hq]; [|destruct Hq]. subst q.
+      destruct (cs_chan cs) as [items|c0].
+      * destruct items as [|it t]; [exfalso; apply Hne; reflexivity | left; reflexivity].
+      * destruct (l_qubits l) as [|q0 t]; [exfalso; apply Hne; reflexivity | left; reflexivity].
 Qed.
 
 (* every drawn qubit of every listed operation has a row: its channel index is one of the rows, and the row computed for
